@@ -101,9 +101,7 @@ namespace mustache {
         T* initComponent(void* data, World& world, const Entity& e, ARGS&&... args) const {
             const static auto id = registerComponent<T>();
             if constexpr(sizeof...(ARGS) > 0) {
-                if constexpr(!std::is_trivially_default_constructible<T>::value) {
-                    data = new(data) T {std::forward<ARGS>(args)...};
-                }
+                data = new(data) T {std::forward<ARGS>(args)...};
                 ComponentInfo::afterComponentAssign<T>(data, e, world);
             } else {
                 initComponents(world, e, id, data, 1);
